@@ -27,6 +27,89 @@ type config struct {
 	hasAcc bool
 	queue  string
 	setQ   bool
+	layout int // how the handlers of the registered kinds are laid out in the pattern tree (see register)
+}
+
+const nLayouts = 7
+
+// register adds handlers so that the service has a resource-kind handler (get/call/auth/new) iff hasRes
+// and an access handler iff hasAcc; the layout only varies where in the pattern tree they sit.
+func register(s *res.Service, cfg config) {
+	get := res.GetResource(func(r res.GetRequest) { r.NotFound() })
+	acc := res.Access(res.AccessGranted)
+	none := func(p string) { s.Handle(p) }
+	switch cfg.layout {
+	case 1: // the kinds sit below a registered pattern that lacks them
+		none("m")
+		if cfg.hasRes {
+			s.Handle("m.$id", get)
+		} else {
+			none("m.$id")
+		}
+		if cfg.hasAcc {
+			s.Handle("m.$id.sub", acc)
+		}
+	case 2: // access above, resource kinds below (and the mirror image)
+		if cfg.hasAcc {
+			s.Handle("m", acc)
+		} else {
+			none("m")
+		}
+		if cfg.hasRes {
+			s.Handle("m.$id", res.Call("x", func(r res.CallRequest) { r.OK(nil) }))
+		}
+	case 3: // through a mounted sub-mux, below a full wildcard sibling
+		sub := res.NewMux("")
+		none("zz.other")
+		if cfg.hasRes {
+			sub.Handle("deep.$a.$b", res.Auth("login", func(r res.AuthRequest) { r.OK(nil) }))
+		}
+		if cfg.hasAcc {
+			sub.Handle("deep.>", acc)
+		}
+		if !cfg.hasRes && !cfg.hasAcc {
+			sub.Handle("x")
+		}
+		s.Mount("sub", sub)
+	case 4: // only the deprecated new handler / a wildcard call handler stand for the resource kinds
+		if cfg.hasRes {
+			s.Handle("m.$id", res.Call("*", func(r res.CallRequest) { r.OK(nil) }))
+		}
+		if cfg.hasAcc {
+			s.Handle("m.$id.n", acc)
+		}
+		none("o")
+	case 5: // both kinds on one deep handler under two handler-less levels
+		none("a")
+		none("a.b")
+		var opts []res.Option
+		if cfg.hasRes {
+			opts = append(opts, get)
+		}
+		if cfg.hasAcc {
+			opts = append(opts, acc)
+		}
+		s.Handle("a.b.c", opts...)
+	case 6: // the service's root resource (pattern "") carries the handlers
+		var opts []res.Option
+		if cfg.hasRes {
+			opts = append(opts, get)
+		}
+		if cfg.hasAcc {
+			opts = append(opts, acc)
+		}
+		s.Handle("", opts...)
+	default:
+		if cfg.hasRes {
+			s.Handle("m", get)
+		}
+		if cfg.hasAcc {
+			s.Handle("n", acc)
+		}
+		if !cfg.hasRes && !cfg.hasAcc {
+			s.Handle("o")
+		}
+	}
 }
 
 func chlist(l []string) [][]string {
@@ -49,14 +132,8 @@ func observe(cfg config) (rec, error) {
 	}
 	s.SetLogger(nil)
 	s.SetWorkerCount(1)
-	if cfg.hasRes {
-		s.Handle("m", res.GetResource(func(r res.GetRequest) { r.NotFound() }))
-	}
-	if cfg.hasAcc {
-		s.Handle("n", res.Access(res.AccessGranted))
-	}
-	if !cfg.hasRes && !cfg.hasAcc {
-		s.Handle("o")
+	if pv := core.Catch(func() { register(s, cfg) }); pv != nil {
+		return nil, fmt.Errorf("registration (layout %d) panicked: %v", cfg.layout, pv)
 	}
 	if cfg.rr != nil || cfg.ra != nil {
 		s.SetOwnedResources(cfg.rr, cfg.ra)
@@ -138,7 +215,7 @@ func observe(cfg config) (rec, error) {
 		"judge": "all", "sn": core.Chars(cfg.sn), "rr": chlist(cfg.rr), "ra": chlist(cfg.ra),
 		"rrnil": cfg.rr == nil, "ranil": cfg.ra == nil, "hasRes": cfg.hasRes, "hasAcc": cfg.hasAcc,
 		"queue": core.Chars(qexp), "subs": subs, "resets": resets, "served": served,
-		"dbg": fmt.Sprintf("name=%q resources=%q access=%q hasRes=%v hasAcc=%v queue=%q -> subs=%q", cfg.sn, cfg.rr, cfg.ra, cfg.hasRes, cfg.hasAcc, qexp, dbg),
+		"dbg": fmt.Sprintf("name=%q resources=%q access=%q hasRes=%v hasAcc=%v layout=%d queue=%q -> subs=%q", cfg.sn, cfg.rr, cfg.ra, cfg.hasRes, cfg.hasAcc, cfg.layout, qexp, dbg),
 	}
 	if cfg.rr == nil != (cfg.ra == nil) {
 		// SetOwnedResources(nil, x) leaves one list to the defaults
@@ -168,6 +245,8 @@ func classify(cfg config, clause string) string {
 		return false
 	}
 	switch {
+	case cfg.layout == 6 && (cfg.rr == nil || cfg.ra == nil):
+		return clause + ":root-handler-only"
 	case cfg.sn == "" && (cfg.rr == nil || cfg.ra == nil):
 		return clause + ":empty-service-name-defaults"
 	case dup(cfg.rr) || dup(cfg.ra):
@@ -198,7 +277,9 @@ func Run(c *core.Ctx) {
 				set bool
 				q   string
 			}{{false, ""}, {true, ""}, {true, "qg"}} {
-				cfgs = append(cfgs, config{sn: sn, hasRes: k&1 != 0, hasAcc: k&2 != 0, setQ: q.set, queue: q.q})
+				for l := 0; l < nLayouts; l++ {
+					cfgs = append(cfgs, config{sn: sn, hasRes: k&1 != 0, hasAcc: k&2 != 0, setQ: q.set, queue: q.q, layout: l})
+				}
 			}
 		}
 	}
@@ -235,7 +316,7 @@ func Run(c *core.Ctx) {
 				}
 				k := rng.Intn(4)
 				q := rng.Intn(3)
-				cfgs = append(cfgs, config{sn: sn, rr: rr, ra: ra, hasRes: k&1 != 0, hasAcc: k&2 != 0, setQ: q > 0, queue: []string{"", "", "qg"}[q]})
+				cfgs = append(cfgs, config{sn: sn, rr: rr, ra: ra, hasRes: k&1 != 0, hasAcc: k&2 != 0, setQ: q > 0, queue: []string{"", "", "qg"}[q], layout: rng.Intn(nLayouts)})
 			}
 		}
 	}
